@@ -215,7 +215,7 @@ func importHeavyConfigs() []cfg.Config {
 
 func TestC08(t *testing.T) {
 	col := ev.Get()
-	runs := pick(6, 20)
+	runs := pick(10, 24)
 	perms := pick(3, 8)
 	col.Note(fmt.Sprintf("an order dependence on a 2-entry map escapes %d fresh processes with probability 2^-%d per site", runs, runs-1))
 	var rc c08Case
